@@ -860,6 +860,56 @@ func scenarioIndexBackfill(name string) scenario {
 	}}
 }
 
+// scenarioSortBackfill: CreateSortIndex beside a writer of the indexed string column (C16 when the index is created
+// after the data, under concurrency): the back-fill is parked after it has read a chunk; the writer overwrites a row
+// of a chunk already back-filled and one of a chunk still to come. Afterwards Ascend must visit every row holding a
+// value, in the order of the values now stored.
+func scenarioSortBackfill(name string) scenario {
+	return scenario{name: name, build: func(s *scheduler) (func(*scheduler) (string, string, string), func()) {
+		hc := &hookCol{Column: column.ForString()}
+		c := newSchedCollHooked(nil, hc)
+		column.VerifSetYield(nil)
+		rows := []uint32{0, 1, 16384, 16385}
+		insertMarkers(c, rows...)
+		for i, r := range rows {
+			c.QueryAt(r, func(row column.Row) error { row.SetAny("h", []string{"m", "c", "k", "e"}[i]); return nil })
+		}
+		column.VerifSetYield(s.yield)
+		hc.s = s
+		s.spawn("indexer", func() { c.CreateSortIndex("sx", "h") })
+		s.spawn("writer", func() {
+			c.QueryAt(0, func(row column.Row) error { row.SetAny("h", "a"); return nil })
+			c.QueryAt(16385, func(row column.Row) error { row.SetAny("h", "z"); return nil })
+		})
+		check := func(s *scheduler) (string, string, string) {
+			column.VerifSetYield(nil)
+			hc.s = nil
+			var got []uint32
+			var vals []string
+			err := c.Query(func(txn *column.Txn) error {
+				return txn.Ascend("sx", func(idx uint32) {
+					got = append(got, idx)
+					v, _ := txn.Any("h").Get()
+					vals = append(vals, fmt.Sprint(v))
+				})
+			})
+			if err != nil {
+				return "sorted", "all threads finished: Ascend over the new sorted index fails: " + err.Error(), ""
+			}
+			if len(got) != len(rows) {
+				return "sorted", fmt.Sprintf("all threads finished: Ascend visits rows %v (values %v); %d rows hold a value", got, vals, len(rows)), ""
+			}
+			for i := 1; i < len(vals); i++ {
+				if vals[i-1] > vals[i] {
+					return "sorted", fmt.Sprintf("all threads finished: Ascend is not ordered by the values now stored: rows %v hold %v", got, vals), ""
+				}
+			}
+			return "", "", ""
+		}
+		return check, func() { c.Close() }
+	}}
+}
+
 // scenarioInserters: concurrent inserts / deletes (C11), with an observer (C02 / finding D17)
 func scenarioInserters(name string, nIns, perThread int, withDeleter bool) scenario {
 	return scenario{name: name, build: func(s *scheduler) (func(*scheduler) (string, string, string), func()) {
@@ -1018,6 +1068,7 @@ var schedClasses = map[string][]string{
 	"C11": {"collide", "count"},
 	"C12": {"dupkey"},
 	"C15": {"ids", "chain"},
+	"C16": {"sorted"},
 	"C18": {},
 }
 
@@ -1053,6 +1104,8 @@ func scenariosFor(prop string, tier string) []scenario {
 		out = append(out, scenarioInserters("2ins", 2, 2, false), scenarioInserters("3ins", 3, 1, false), scenarioInserters("2ins-deleter", 2, 2, true))
 	case "C03":
 		out = append(out, scenarioIndexBackfill("index-backfill"))
+	case "C16":
+		out = append(out, scenarioSortBackfill("sort-backfill"))
 	case "C12":
 		out = append(out, scenarioKeyRace("inskey-race", false), scenarioKeyRace("upskey-race", true))
 	case "C18":
